@@ -147,7 +147,7 @@ func (self *TextCommandConverter) ConvertArgs2Flag(lockCommand *LockCommand, arg
 				lockCommand.Expried = uint16(expried)
 				lockCommand.ExpriedFlag |= EXPRIED_FLAG_MILLISECOND_TIME
 			} else {
-				lockCommand.Expried = uint16(expried)
+				lockCommand.Expried = uint16((expried + 999) / 1000)
 			}
 			i++
 		case "TX":
@@ -178,7 +178,7 @@ func (self *TextCommandConverter) ConvertArgs2Flag(lockCommand *LockCommand, arg
 				return errors.New("Command Parse TX Value Error")
 			}
 			if timeout > 65535000 {
-				if (timeout/1000)%60 == 0 {
+				if timeout%60000 == 0 {
 					lockCommand.Timeout = uint16(timeout / 60000)
 				} else {
 					lockCommand.Timeout = uint16(timeout/60000) + 1
@@ -188,7 +188,7 @@ func (self *TextCommandConverter) ConvertArgs2Flag(lockCommand *LockCommand, arg
 				lockCommand.Timeout = uint16(timeout)
 				lockCommand.TimeoutFlag |= TIMEOUT_FLAG_MILLISECOND_TIME
 			} else {
-				lockCommand.Timeout = uint16(timeout)
+				lockCommand.Timeout = uint16((timeout + 999) / 1000)
 			}
 			i++
 		case "NX":
